@@ -246,7 +246,10 @@ def run_family(ck, n_grammars, n_random, p_err=0.3, want_hist=True, conflict_bia
         per = []
         for gi, ((i_a, i_n, i_s, sg), g) in enumerate(zip(idx, gs)):
             ia, inn = b.items[i_a], b.items[i_n]
-            rec = {"gi": gi, "g": g, "text": ia["text"].decode(), "rc_a": ia["rc"], "rc_noa": inn["rc"], "hang": ia["hang"] or inn["hang"],
+            t = C.Txt(ia["text"].decode())
+            t.enc = gram.encode(g)
+            t.flags = ia["flags"]
+            rec = {"gi": gi, "g": g, "text": t, "rc_a": ia["rc"], "rc_noa": inn["rc"], "hang": ia["hang"] or inn["hang"],
                    "out_a": ia["out"], "out_noa": inn["out"], "err_a": ia["err"], "err_noa": inn["err"],
                    "model_lrtab": mtabs[4 * gi], "model_terms": mtabs[4 * gi + 1], "c05": mtabs[4 * gi + 2], "validate": mtabs[4 * gi + 3],
                    "impl_lrtab": itabs.get("lrtab %d" % i_a), "impl_terms": itabs.get("terminals %d" % i_a),
